@@ -70,6 +70,93 @@ def h_atom_eq(V, kind, q_el='C', a_el='C', lens=(0, 2), rings=False, falsify=Fal
     V.observe('got', got)
 
 
+LISTS = [['Cl', 'Br'], ['Si', 'N'], ['C', 'N'], ['Fe', 'Og', 'H'], ['Se', 'As', 'Te']]
+
+
+def h_list_elements(V, k=0):
+    """an element list against every element: matches exactly its members"""
+    pt = _classes()
+    from vlib.refsmiles import ELEMENTS
+    els = LISTS[k]
+    q = pt.ListElement(els)
+    z = int(V.int('Z', 1, 118))
+    a = getattr(pt, ELEMENTS[z - 1])()
+    a._neighbors = a._heteroatoms = 0
+    a._hybridization = 1
+    a._ring_sizes = set()
+    a._in_ring = False
+    a._implicit_hydrogens = 0
+    V.prove((q == a) == (ELEMENTS[z - 1] in els), 'element list matches exactly its members', {'list': els,
+            'atom': ELEMENTS[z - 1]})
+    import chython
+    q2 = next(iter(chython.smarts('[' + ','.join(els) + ']').atoms()))[1]
+    V.prove((q2 == a) == (ELEMENTS[z - 1] in els), 'SMARTS element list matches exactly its members', {'list': els,
+            'atom': ELEMENTS[z - 1]})
+    V.observe('m', q == a)
+
+
+RING_SHAPES = {
+    'bicyclopropyl': (6, [(1, 2), (2, 3), (1, 3), (3, 4), (4, 5), (5, 6), (4, 6)]),
+    'spiropentane': (5, [(1, 2), (2, 3), (1, 3), (3, 4), (4, 5), (3, 5)]),
+    'bicyclobutane': (4, [(1, 2), (2, 3), (3, 4), (4, 1), (1, 3)]),
+    'cyclopropylmethyl': (5, [(1, 2), (2, 3), (1, 3), (3, 4), (4, 5)]),
+    'cyclobutyl-cyclobutyl': (8, [(1, 2), (2, 3), (3, 4), (4, 1), (4, 5), (5, 6), (6, 7), (7, 8), (8, 5)]),
+    'ring3-chain-ring3': (7, [(1, 2), (2, 3), (1, 3), (3, 4), (4, 5), (5, 6), (6, 7), (5, 7)]),
+}
+
+
+def h_ring_labels(V, shape, falsify=False):
+    """ring marks on atoms and bonds against an independent oracle (a bond is in a ring iff it is not a bridge of the
+    graph without coordinate bonds), with every bond symbolically ordinary or coordinate"""
+    from chython import MoleculeContainer
+    from chython.containers.bonds import Bond
+    pt = _classes()
+    n, edges = RING_SHAPES[shape]
+    m = MoleculeContainer()
+    for i in range(1, n + 1):
+        m._atoms[i] = pt.C()
+        m._bonds[i] = {}
+    kept = []
+    for k, (i, j) in enumerate(edges):
+        coord = bool(V.bool(f'coord{k}'))
+        b = Bond(8 if coord else 1)
+        m._bonds[i][j] = m._bonds[j][i] = b
+        if not coord:
+            kept.append((i, j))
+    m.calc_labels()
+
+    def connected(es, a, b):
+        adj = {}
+        for x, y in es:
+            adj.setdefault(x, set()).add(y)
+            adj.setdefault(y, set()).add(x)
+        seen, st = {a}, [a]
+        while st:
+            x = st.pop()
+            for y in adj.get(x, ()):
+                if y not in seen:
+                    seen.add(y)
+                    st.append(y)
+        return b in seen
+    ring_atoms = set()
+    for (i, j) in edges:
+        b = m._bonds[i][j]
+        if (i, j) in kept:
+            in_ring = connected([e for e in kept if e != (i, j)], i, j)
+            if falsify and shape == 'bicyclopropyl' and (i, j) == (3, 4):
+                in_ring = not in_ring
+            V.prove(bool(b.in_ring) == in_ring, 'bond ring mark = bond lies on a cycle of ordinary bonds',
+                    {'shape': shape, 'bond': [i, j], 'kept': kept})
+            if in_ring:
+                ring_atoms.update((i, j))
+    for i in range(1, n + 1):
+        a = m._atoms[i]
+        V.prove(a.in_ring == (i in ring_atoms), 'atom ring mark = atom lies on a cycle', {'shape': shape, 'atom': i,
+                'kept': kept})
+        V.prove(bool(a.ring_sizes) == (i in ring_atoms), 'ring sizes are given exactly for ring atoms')
+    V.observe('kept', kept)
+
+
 def h_bond_eq(V, falsify=False):
     from chython.containers.bonds import Bond, QueryBond
     bits = {o: V.bool(f'q_has{o}') for o in (1, 2, 3, 4, 8)}
@@ -343,7 +430,7 @@ def h_query_stereo(V, smi, flip=False):
 
 
 HARNESSES = {
-    'atom_eq': h_atom_eq, 'bond_eq': h_bond_eq, 'plain_bond_eq': h_plain_bond_eq, 'calc_labels': h_calc_labels,
+    'atom_eq': h_atom_eq, 'list_elements': h_list_elements, 'ring_labels': h_ring_labels, 'bond_eq': h_bond_eq, 'plain_bond_eq': h_plain_bond_eq, 'calc_labels': h_calc_labels,
     'smarts_atom': h_smarts_atom, 'smarts_rejects': h_smarts_rejects, 'smarts_bond': h_smarts_bond,
     'query_stereo': with_random(h_query_stereo),
 }
@@ -370,6 +457,12 @@ def jobs(tier):
                       'validate_every': 50, 'weight': 300})
     J.append({'harness': 'atom_eq', 'params': {'kind': 'element', 'q_el': 'C', 'a_el': 'C', 'lens': [1], 'falsify': True},
               'twin': True, 'budget_s': 300, 'max_failures': 1, 'validate': False})
+    for k in range(len(LISTS)):
+        J.append({'harness': 'list_elements', 'params': {'k': k}, 'budget_s': 300, 'max_failures': 20})
+    for sh in RING_SHAPES:
+        J.append({'harness': 'ring_labels', 'params': {'shape': sh}, 'budget_s': 600, 'validate_every': 10})
+    J.append({'harness': 'ring_labels', 'params': {'shape': 'bicyclopropyl', 'falsify': True}, 'twin': True, 'budget_s': 300,
+              'max_failures': 1})
     J.append({'harness': 'bond_eq', 'budget_s': 300})
     J.append({'harness': 'bond_eq', 'params': {'falsify': True}, 'twin': True, 'budget_s': 300, 'max_failures': 1})
     J.append({'harness': 'plain_bond_eq', 'budget_s': 60})
